@@ -260,6 +260,8 @@ func runC08(c *Ctx) {
 		offs = gpl.MustPrecede(w.callsReaching("fs.FileIO.WriteFile", "fs.fileIO.WriteFile", "os.WriteFile", "fs.defaultFileIO.WriteFile"), func(n *GNode) bool { return n.Ret != nil && gpl.ClassifyReturn(n) == RetNil })
 		c.Offences(gpl, offs, r4, "fs.priorityLog.Add: nil only after the file write", fpl.Decl.Pos(), "nil return dominated by a WriteFile call", "priorityLog.Add can report success without writing the file")
 	}
+	r5 := c.Rule("R5", "a registry block torn by a crash is served from its pre-image to every reader: restoreFromCow reports success only after it copied the verified backup into the caller's buffer, also for read-only callers that cannot write the block back (shared with C23.R1)", 2)
+	cowRestoreRule(c, r5)
 }
 
 // rulePriorityRestore (first half of C08.R3, shared by C09.R3): the priority log is removed only after
